@@ -1336,7 +1336,7 @@ fn classical_declaration_statement_to_asg_stmt(
         // Also literals are probably treated differently.
         // Is this in the spec, or somewhat up to the implementation?
         if types::equal_up_to_constness(&lhs_type, init_type) {
-            return asg::DeclareClassical::new(symbol_id, Some(initializer)).to_stmt();
+            return declare_classical_helper(symbol_id, Some(initializer), context);
         }
         // From this point, we need to cast, if possible.
         // So, we either cast, or record an error saying types are incompatible.
@@ -1377,9 +1377,11 @@ fn declare_classical_helper(
     initializer: Option<asg::TExpr>,
     context: &mut Context,
 ) -> asg::Stmt {
-    if let Some(initializer) = &initializer {
+    // If the binding failed (redeclaration), the error has been logged and there is no symbol
+    // to associate a constant value with.
+    if let (Some(initializer), Ok(symbol_id)) = (&initializer, &symbol_id) {
         if initializer.get_type().is_const() {
-            context.insert_const_value(symbol_id.clone().unwrap(), initializer.clone());
+            context.insert_const_value(symbol_id.clone(), initializer.clone());
         }
     }
     asg::DeclareClassical::new(symbol_id, initializer).to_stmt()
